@@ -31,6 +31,8 @@ func c06(c *Ctx) {
 	c06sharedBarrier(c)
 	c06takeWithExpire(c)
 	c06barrierPanic(c)
+	c06retryChain(c)
+	c06optionsForwarded(c)
 }
 
 // isCeilSeconds: s is int(math.Ceil(X.Seconds())); returns X.
